@@ -10,13 +10,17 @@ layouts against a flat FFI that got all the cdefs without include(), constants,
 and in API mode functions / globals / constants of the included libs reached
 through the including lib (writes seen on both sides).  An icontract
 postcondition on Parser.include monitors the sharing of the model objects.
+Wrong / unusable aggregates and dying interpreters are classified by repair:
+the same ABI graph is built again with graph-wide unique '$N' names for
+anonymous aggregates; what disappears then is the name-collision class.
 """
 import os, sys, random, re
 from vlib import core, modbuild, gen_cdef as GC
 
 RULE = ("case = one include graph of 2..4 FFIs (chain k<-k+1, diamond, fan) x mode (in-line, "
         "out-of-line ABI, API); every FFI has 3..10 generated declarations (typedef chains, "
-        "nested/bitfield aggregates, enums, #define/static const constants, functions, globals) "
+        "nested/anonymous/bitfield aggregates (no bitfields in API graphs), enums, #define/static "
+        "const constants, functions, globals) "
         "whose types are drawn from its own and all visible earlier declarations, plus a 'use' "
         "struct/typedefs/array lengths that name earlier typedefs, aggregates, enums and "
         "constants; evaluated = one (including FFI, included declaration) pair or one lib "
@@ -125,8 +129,8 @@ def add_uses(nd, rnd, earlier):
     ks = [kv for kv in ks if 1 <= kv[1] <= 300]
     for i, (kn, kv) in enumerate(rnd.sample(ks, min(len(ks), 2))):
         nm = '%slen%d' % (p, i)
-        td = {'kind': 'typedef', 'name': nm, 'type': {'k': 'array', 'of': {'k': 'prim', 'name': 'char'}, 'n': kv},
-              'text': 'typedef char %s[%s];' % (nm, kn)}
+        td = {'kind': 'typedef', 'name': nm, 'text': 'typedef char %s[%s];' % (nm, kn),
+              'type': {'k': 'array', 'of': {'k': 'prim', 'name': 'char'}, 'n': kv}}
         c.typedefs.append(td)
         c.items.append(td)
         nd.lengths.append((nm, kn, kv))
@@ -208,7 +212,7 @@ def run(ctx):
             again = []
             for c, o in zip(cases, core.run_cases(ctx, 'c34', None, cases, variant=variant,
                                                   timeout=TIMEOUT)):
-                if isinstance(o, dict) and '_crash' in o and crashed(ctx, c, o, again):
+                if isinstance(o, dict) and '_crash' in o and crashed(ctx, c, o, again, variant):
                     continue
                 if core.std_obs_check(ctx, c, o, True, SAN_DECIDES):
                     judge(ctx, None, c, o)
@@ -226,24 +230,29 @@ def run(ctx):
         for i in range(0, len(aseeds), 4)], 'asan')
 
 
-def crashed(ctx, case, obs, again):
-    """a child died: the graph it was in (last breadcrumb on its stderr) is the witness, classified
-    by whether anonymous-member names of several FFIs meet in one module; the other graphs of
-    the case are run again"""
-    m = re.findall(r'C34-CRUMB graph (\d+) collide=(\d)', obs.get('_stderr', ''))
-    if not m or int(m[-1][0]) not in case['seeds']:
+def crashed(ctx, case, obs, again, variant):
+    """a child died: the graph it was in (last breadcrumb on its stderr) is the witness; it is
+    classified by repair (does the same ABI graph with graph-wide unique names for anonymous
+    aggregates survive?); the other graphs of the case are run again"""
+    m = re.findall(r'C34-CRUMB graph (\d+)', obs.get('_stderr', ''))
+    if not m or int(m[-1]) not in case['seeds']:
         return False
-    seed, i = int(m[-1][0]), case['seeds'].index(int(m[-1][0]))
+    seed, i = int(m[-1]), case['seeds'].index(int(m[-1]))
     ctx.count('child_crashes')
-    ctx.violation('crash:%s:%s' % ('anonymous-member-names-collide' if m[-1][1] == '1' else 'other',
-                                   case['mode']),
+    what = 'other'
+    if case['mode'] == 'abi':
+        o = core.run_cases(ctx, 'c34', None, [{'mode': 'abi', 'seeds': [seed], 'repair': 1}],
+                           variant=variant, nproc=1, timeout=TIMEOUT)[0]
+        if isinstance(o, dict) and 'n' in o and not any(b[0].startswith('harness') for b in o['bad']):
+            what = 'anonymous-member-names-collide'
+            ctx.count('crashes_gone_with_unique_anonymous_names')
+    ctx.violation('crash:%s:%s' % (what, case['mode']),
                   'the interpreter died (rc=%s) while the types of graph seed %d (%s) were asked\n%s'
                   % (obs['_crash'], seed, case['mode'], obs.get('_stderr', '')[-1200:]),
                   {'mode': case['mode'], 'seeds': [seed]})
     for part in (slice(0, i), slice(i + 1, None)):
         if case['seeds'][part]:
-            again.append(dict(case, seeds=case['seeds'][part],
-                              dirs=case.get('dirs', case['seeds'])[part]))
+            again.append(dict(case, seeds=case['seeds'][part], dirs=case.get('dirs', [])[part]))
     return True
 
 
@@ -335,33 +344,9 @@ def reaches_enum(t):
     return False
 
 
-class Anon(object):
-    """classifier input: which declarations reach an aggregate with an anonymous struct/union
-    member, and which FFIs declare one (their parsers number them $1, $2.. independently)"""
-
-    def __init__(self, nodes):
-        self.nodes = nodes
-        self.text = {d['name']: d['text'] for nd in nodes for d in nd.c.items
-                     if d['kind'] in ('agg', 'typedef')}
-        self.declaring = {k for k, nd in enumerate(nodes)
-                          if any(d['kind'] == 'agg' and '  {' in d['text'] for d in nd.c.items)}
-
-    def reach(self, name, seen=None):
-        seen = seen if seen is not None else set()
-        if name in seen or name not in self.text:
-            return False
-        seen.add(name)
-        t = self.text[name]
-        return '  {' in t or any(self.reach(w, seen) for w in set(re.findall(r'c\d+[abcd]_\w+', t)))
-
-    def collide(self, name, k):
-        """`name`, asked through FFI k, reaches anonymous members, and at least two FFIs whose
-        tables are involved declare anonymous members"""
-        return len(({k} | self.nodes[k].vis) & self.declaring) >= 2 and self.reach(name)
-
-
-def build_ffis(st, nodes, seed, mode, dirs):
-    """-> (ffis, libs)"""
+def build_ffis(st, nodes, seed, mode, dirs, repair=False):
+    """-> (ffis, libs).  repair (in-line / ABI): every parser numbers its anonymous aggregates
+    ($1, $2, ..) from a different base, so that these names are unique over the whole graph"""
     import importlib
     from cffi import FFI
     if mode == 'api':
@@ -378,9 +363,12 @@ def build_ffis(st, nodes, seed, mode, dirs):
         f = FFI()
         for j in nd.includes:
             f.include(ffis[j])
+        if repair:
+            f._parser._anonymous_counter = 1000 * (k + 1)
         f.cdef(nd.text)
         ffis.append(f)
     if mode == 'abi':
+        mode += 'r' if repair else ''
         for k, f in enumerate(ffis):
             f.set_source(modname(seed, k, mode), None)
             f.emit_python_code(os.path.join(st['wd'], modname(seed, k, mode) + '.py'))
@@ -400,7 +388,7 @@ def child_case(st, case):
         for i, seed in enumerate(case['seeds']):
             try:
                 run_graph(st, rep, seed, case['mode'],
-                          case['dirs'][i] if case['mode'] == 'api' else None)
+                          case['dirs'][i] if case['mode'] == 'api' else None, case.get('repair'))
             except Exception:
                 import traceback
                 rep.bad('harness-error', 'graph seed %d (%s): %s' %
@@ -414,25 +402,34 @@ def child_case(st, case):
     return rep.result()
 
 
-def run_graph(st, rep, seed, mode, dirs):
+def run_graph(st, rep, seed, mode, dirs, repair=False):
     from cffi import FFI
     nodes, topo = make_graph(seed, mode)
-    anon = Anon(nodes)
     rnd = random.Random(seed ^ 0x34)
     where = ' :: graph seed %d, mode %s, %s of %d' % (seed, mode, topo, len(nodes))
-    os.write(2, b'C34-CRUMB graph %d collide=%d\n' % (seed, mode != 'inline' and any(
-        len(({k} | nd.vis) & anon.declaring) >= 2 for k, nd in enumerate(nodes))))
+    os.write(2, b'C34-CRUMB graph %d\n' % seed)
+    repaired = []
 
     def bad(mech, msg):
         rep.bad('%s:%s' % (mech, mode), msg + where, seed)
 
-    def agg_bad(what, name, k, msg):
-        """wrong / unusable aggregate: classified by the anonymous-member name collision"""
-        if mode != 'inline' and anon.collide(name, k):
-            what = 'aggregate-wrong-or-unusable:anonymous-member-names-collide'
+    def agg_bad(what, tag, k, msg):
+        """wrong / unusable aggregate; classified by repair: if the same ABI graph built with
+        graph-wide unique names for anonymous aggregates shows `tag` through FFI k as the flat
+        FFI does, the cause is the collision of these names between the FFIs of the graph"""
+        if mode == 'abi' and not repair:
+            try:
+                if not repaired:
+                    repaired.append(build_ffis(st, nodes, seed, mode, dirs, True)[0])
+                fr = repaired[0][k]
+                if shape(fr, fr.typeof(tag)) == shape(flat, flat.typeof(tag)):
+                    what = 'aggregate-wrong-or-unusable:anonymous-member-names-collide'
+                    rep.stat('mismatches_gone_with_unique_anonymous_names')
+            except Exception:
+                pass
         bad(what, msg)
     try:
-        ffis, libs = build_ffis(st, nodes, seed, mode, dirs)
+        ffis, libs = build_ffis(st, nodes, seed, mode, dirs, repair)
     except IncludeCopied as e:
         return bad('parser-include-does-not-share-model-object', 'Parser.include postcondition: %s' % e)
     except Exception as e:
@@ -449,7 +446,7 @@ def run_graph(st, rep, seed, mode, dirs):
         tag = tag_of(d)
         sk, sf = shape(ffis[k], tk), shape(flat, flat.typeof(tag))
         if sk != sf:
-            agg_bad('%s-layout-differs-from-flat' % kname, d['name'], k,
+            agg_bad('%s-layout-differs-from-flat' % kname, tag, k,
                     '%s %s FFI %d: %r, flat FFI without include: %r' % (tag, through, k, sk, sf))
 
     for k, nd in enumerate(nodes):
@@ -493,7 +490,7 @@ def run_graph(st, rep, seed, mode, dirs):
                     if mode == 'api' and kind in ('func', 'glob'):
                         check_lib(rep, bad, rnd, nodes[j].c, d, fk, libs[k], fj, libs[j], k)
                 except Exception as e:
-                    agg_bad('%s-through-includer-raised:%s' % (kname, type(e).__name__), d['name'], k,
+                    agg_bad('%s-through-includer-raised:%s' % (kname, type(e).__name__), tag, k,
                             '%r of FFI %d asked through FFI %d: %s' % (d['text'][:200], j, k, e))
         # this node's own declarations that name earlier ones
         for own, field, how, j, tag in nd.uses:
@@ -512,7 +509,7 @@ def run_graph(st, rep, seed, mode, dirs):
                         'not that FFI\'s %r (id %#x)' % (own, '.' + field if field else '', k, tag, j,
                                                         t, id(t), want, id(want)))
             except Exception as e:
-                agg_bad('use-raised:' + type(e).__name__, own, k,
+                agg_bad('use-raised:' + type(e).__name__, own if field is None else 'struct ' + own, k,
                         '%s.%s of FFI %d: %s' % (own, field, k, e))
         for own, kn, kv in nd.lengths:
             rep.case((mode, 'len', nd.text, own))
@@ -539,7 +536,7 @@ def run_graph(st, rep, seed, mode, dirs):
                 try:
                     flat_compare('includer-aggregate', d, k, fk.typeof(tag_of(d)), 'declared by including')
                 except Exception as e:
-                    agg_bad('includer-aggregate-raised:' + type(e).__name__, d['name'], k,
+                    agg_bad('includer-aggregate-raised:' + type(e).__name__, tag_of(d), k,
                             '%s: %s' % (d['text'][:200], e))
         # list_types() of an including FFI covers what it includes
         if nd.vis:
